@@ -120,6 +120,15 @@ class MirDB:
         c = strip_generics(callee)
         if c in self.by_name and len(self.by_name[c]) == 1:
             return self.by_name[c][0]
+        # fn nested in a trait method: <X as Trait>::m::inner  -> `<impl at ..>::m::inner`
+        m = re.match(r'^(<.* as .*>::[A-Za-z_0-9]+)::([A-Za-z_0-9]+)$', c, re.S)
+        if m:
+            outer = self.resolve(m.group(1), caller_fn, engine)
+            if outer is not None:
+                inner = self.by_name.get(outer.name + '::' + m.group(2))
+                if inner and len(inner) == 1:
+                    return inner[0]
+            return None
         # <X as Trait>::m
         m = re.match(r'^<(.*) as (.*)>::([A-Za-z_0-9]+)$', c, re.S)
         if m:
